@@ -2,6 +2,7 @@ package main
 
 import (
 	"errors"
+	"fmt"
 	"math/rand"
 	"sort"
 	"sync"
@@ -28,6 +29,7 @@ type hkAction struct {
 	ret    int // 0 keep, 1 clear, 2 set
 	res    int // 0 nil, 1 ErrRejectPacket, 2 CodeSuccessIgnore, 3 packets.Code, 4 plain error
 	code   byte
+	wrap   int // the error is returned bare (0) or wrapped once / twice with %w
 }
 
 type hkSubRule struct {
@@ -129,17 +131,23 @@ func (a hkAction) apply(pk packets.Packet) (packets.Packet, error) {
 	case 2:
 		pk.FixedHeader.Retain = true
 	}
+	var err error
 	switch a.res {
 	case 1:
-		return pk, packets.ErrRejectPacket
+		err = packets.ErrRejectPacket
 	case 2:
-		return pk, packets.CodeSuccessIgnore
+		err = packets.CodeSuccessIgnore
 	case 3:
-		return pk, packets.Code{Code: a.code, Reason: "scripted"}
+		err = packets.Code{Code: a.code, Reason: "scripted"}
 	case 4:
-		return pk, errors.New("scripted plain error")
+		err = errors.New("scripted plain error")
+	default:
+		return pk, nil
 	}
-	return pk, nil
+	for i := 0; i < a.wrap; i++ { // a hook may wrap the sentinel: the broker must look through with errors.Is / errors.As
+		err = fmt.Errorf("blocked by policy %d: %w", i, err)
+	}
+	return pk, err
 }
 
 func (h *scriptHook) OnConnectAuthenticate(cl *mqtt.Client, pk packets.Packet) bool {
@@ -199,7 +207,7 @@ func hkActionsSx(m map[string]hkAction, keys []string) sx.V {
 	l := sx.L{}
 	for _, k := range keys {
 		a := m[k]
-		l = append(l, sx.L{sx.S(k), sx.S(a.topic), sx.B(a.suffix), sx.N(uint64(a.ret)), sx.N(uint64(a.res)), sx.N(uint64(a.code))})
+		l = append(l, sx.L{sx.S(k), sx.S(a.topic), sx.B(a.suffix), sx.N(uint64(a.ret)), sx.N(uint64(a.res)), sx.N(uint64(a.code)), sx.N(uint64(a.wrap))})
 	}
 	return l
 }
@@ -259,6 +267,9 @@ func hkRandAction(rng *rand.Rand, read bool) hkAction {
 	}
 	if read && a.res == 2 && rng.Intn(2) == 0 {
 		a.res = 0
+	}
+	if a.res != 0 {
+		a.wrap = rng.Intn(3)
 	}
 	return a
 }
@@ -461,7 +472,7 @@ func engHooks(seed int64, tier string, _ []string, out *sx.Out) {
 			}
 		}
 		// exhaustive part: one OnPublish hook with every result x versions x qos (first histories)
-		if hi < 6 {
+		if hi < 18 {
 			hooks = []*scriptHook{hkInfraHook(1, lg)}
 			h := &scriptHook{id: 2, log: lg, hasAuth: true, auth: []string{"p0", "p1"}, hasACL: true, hasPub: true,
 				pub: map[string]hkAction{}, read: map[string]hkAction{}, sub: map[string]hkSubRule{}}
@@ -469,8 +480,17 @@ func engHooks(seed int64, tier string, _ []string, out *sx.Out) {
 				h.acl = append(h.acl, hkACLKey{"p0", t, true}, hkACLKey{"p1", t, true})
 			}
 			res := []hkAction{{res: 1}, {res: 2}, {res: 3, code: 0x99}, {res: 4}, {res: 3, code: 0x10}, {res: 0, suffix: []byte{0xaa}}}
-			h.pub["t/a"] = res[hi]
+			act := res[hi%6]
+			if act.res != 0 {
+				act.wrap = hi / 6 // bare, wrapped once, wrapped twice
+			}
+			h.pub["t/a"] = act
 			h.pubK = []string{"t/a"}
+			if hi%6 == 0 { // the same rejection also on read (another topic)
+				h.hasRead = true
+				h.read["t/c"] = hkAction{res: 1, wrap: hi / 6}
+				h.readK = []string{"t/c"}
+			}
 			if hi%2 == 0 {
 				hooks = append(hooks, h)
 			} else {
@@ -495,11 +515,11 @@ func engHooks(seed int64, tier string, _ []string, out *sx.Out) {
 			r.subscribe("s", packets.Subscription{Filter: "#", Qos: 0})
 		}
 		vers := []byte{3, 4, 5, 5}
-		if hi < 6 {
+		if hi < 18 {
 			// every version x qos x retain on the scripted topic and on an unscripted one
 			for _, ver := range []byte{3, 4, 5} {
 				for qos := byte(0); qos < 3; qos++ {
-					for _, topic := range []string{"t/a", "t/b"} {
+					for _, topic := range []string{"t/a", "t/b", "t/c"} {
 						if r.conns["p0"] == nil {
 							r.connect("p0", ver)
 						}
